@@ -297,6 +297,7 @@ func reproduced(v Violation, r NativeResult) bool {
 
 func runProperty(prop, tier, repo, verif string, opts RunOpts, workers int, noReplay bool) int {
 	start := time.Now()
+	os.Setenv("VERIF_TIER", tier) // native replays must see the same tier as the executor
 	P, err := loadProgram(repo, verif)
 	if err != nil {
 		fmt.Fprintln(os.Stderr, "load:", err)
